@@ -61,7 +61,7 @@ impl serde::Serialize for BasicHeader {
 
         // Normalize logical_terminal to exactly 12 characters for JSON
         let normalized_logical_terminal = if self.logical_terminal.len() > 12 {
-            self.logical_terminal[..12].to_string()
+            self.logical_terminal.chars().take(12).collect()
         } else if self.logical_terminal.len() < 12 {
             format!("{:X<12}", self.logical_terminal)
         } else {
@@ -98,7 +98,7 @@ impl<'de> serde::Deserialize<'de> for BasicHeader {
 
         // Normalize logical_terminal to exactly 12 characters
         let normalized_logical_terminal = if helper.logical_terminal.len() > 12 {
-            helper.logical_terminal[..12].to_string()
+            helper.logical_terminal.chars().take(12).collect()
         } else if helper.logical_terminal.len() < 12 {
             format!("{:X<12}", helper.logical_terminal)
         } else {
@@ -125,6 +125,14 @@ impl BasicHeader {
     pub fn parse(block1: &str) -> Result<Self> {
         // Expected format: F01SSSSSSSSSCCC0000NNNNNN (exactly 25 characters)
         // Where: F=app_id, 01=service_id, SSSSSSSSSCCC=logical_terminal(12), 0000=session(4), NNNNNN=sequence(6)
+        // Fixed byte offsets below: a multi-byte character cannot be part of a valid block 1
+        if !block1.is_ascii() {
+            return Err(ParseError::InvalidBlockStructure {
+                block: "1".to_string(),
+                message: "Block 1 must contain only ASCII characters".to_string(),
+            });
+        }
+
         if block1.len() != 25 {
             return Err(ParseError::InvalidBlockStructure {
                 block: "1".to_string(),
@@ -202,7 +210,7 @@ impl std::fmt::Display for BasicHeader {
 
         // Pad or truncate logical_terminal to exactly 12 characters
         let logical_terminal = if self.logical_terminal.len() > 12 {
-            self.logical_terminal[..12].to_string()
+            self.logical_terminal.chars().take(12).collect()
         } else if self.logical_terminal.len() < 12 {
             // Pad with 'X' to reach 12 characters (standard for missing branch codes)
             format!("{:X<12}", self.logical_terminal)
@@ -213,13 +221,13 @@ impl std::fmt::Display for BasicHeader {
         // Ensure session_number is exactly 4 digits, left-padded with zeros
         let session_number = format!(
             "{:0>4}",
-            &self.session_number[..self.session_number.len().min(4)]
+            self.session_number.chars().take(4).collect::<String>()
         );
 
         // Ensure sequence_number is exactly 6 digits, left-padded with zeros
         let sequence_number = format!(
             "{:0>6}",
-            &self.sequence_number[..self.sequence_number.len().min(6)]
+            self.sequence_number.chars().take(6).collect::<String>()
         );
 
         write!(
@@ -262,7 +270,7 @@ impl serde::Serialize for InputApplicationHeader {
 
         // Normalize destination_address to exactly 12 characters for JSON
         let normalized_destination_address = if self.destination_address.len() > 12 {
-            self.destination_address[..12].to_string()
+            self.destination_address.chars().take(12).collect()
         } else if self.destination_address.len() < 12 {
             format!("{:X<12}", self.destination_address)
         } else {
@@ -306,7 +314,7 @@ impl<'de> serde::Deserialize<'de> for InputApplicationHeader {
 
         // Normalize destination_address to exactly 12 characters
         let normalized_destination_address = if helper.destination_address.len() > 12 {
-            helper.destination_address[..12].to_string()
+            helper.destination_address.chars().take(12).collect()
         } else if helper.destination_address.len() < 12 {
             format!("{:X<12}", helper.destination_address)
         } else {
@@ -375,6 +383,14 @@ pub enum ApplicationHeader {
 impl ApplicationHeader {
     /// Parse application header from block 2 string
     pub fn parse(block2: &str) -> Result<Self> {
+        // Fixed byte offsets below: a multi-byte character cannot be part of a valid block 2
+        if !block2.is_ascii() {
+            return Err(ParseError::InvalidBlockStructure {
+                block: "2".to_string(),
+                message: "Block 2 must contain only ASCII characters".to_string(),
+            });
+        }
+
         if block2.len() < 4 {
             return Err(ParseError::InvalidBlockStructure {
                 block: "2".to_string(),
@@ -600,12 +616,12 @@ impl std::fmt::Display for InputApplicationHeader {
         // Ensure message_type is exactly 3 characters
         let message_type = format!(
             "{:0>3}",
-            &self.message_type[..self.message_type.len().min(3)]
+            self.message_type.chars().take(3).collect::<String>()
         );
 
         // Pad or truncate destination_address to exactly 12 characters
         let destination_address = if self.destination_address.len() > 12 {
-            self.destination_address[..12].to_string()
+            self.destination_address.chars().take(12).collect()
         } else if self.destination_address.len() < 12 {
             format!("{:X<12}", self.destination_address)
         } else {
@@ -887,7 +903,7 @@ impl UserHeader {
 
     /// Parse balance checkpoint from tag value
     fn parse_balance_checkpoint(value: &str) -> Option<BalanceCheckpoint> {
-        if value.len() >= 12 {
+        if value.is_ascii() && value.len() >= 12 {
             Some(BalanceCheckpoint {
                 date: value[0..6].to_string(),
                 time: value[6..12].to_string(),
@@ -904,7 +920,7 @@ impl UserHeader {
 
     /// Parse message input reference from tag value
     fn parse_message_input_reference(value: &str) -> Option<MessageInputReference> {
-        if value.len() >= 28 {
+        if value.is_ascii() && value.len() >= 28 {
             Some(MessageInputReference {
                 date: value[0..6].to_string(),
                 lt_identifier: value[6..18].to_string(),
@@ -919,7 +935,7 @@ impl UserHeader {
 
     /// Parse payment release info from tag value
     fn parse_payment_release_info(value: &str) -> Option<PaymentReleaseInfo> {
-        if value.len() >= 3 {
+        if value.is_ascii() && value.len() >= 3 {
             let code = value[0..3].to_string();
             let additional_info = if value.len() > 4 && value.chars().nth(3) == Some('/') {
                 Some(value[4..].to_string())
@@ -937,7 +953,7 @@ impl UserHeader {
 
     /// Parse sanctions screening info from tag value
     fn parse_sanctions_screening_info(value: &str) -> Option<SanctionsScreeningInfo> {
-        if value.len() >= 3 {
+        if value.is_ascii() && value.len() >= 3 {
             let code_word = value[0..3].to_string();
             let additional_info = if value.len() > 4 && value.chars().nth(3) == Some('/') {
                 Some(value[4..].to_string())
@@ -955,7 +971,7 @@ impl UserHeader {
 
     /// Parse payment controls info from tag value
     fn parse_payment_controls_info(value: &str) -> Option<PaymentControlsInfo> {
-        if value.len() >= 3 {
+        if value.is_ascii() && value.len() >= 3 {
             let code_word = value[0..3].to_string();
             let additional_info = if value.len() > 4 && value.chars().nth(3) == Some('/') {
                 Some(value[4..].to_string())
